@@ -2517,3 +2517,224 @@ def _ord_max(I, a, d):
 @T.trait("Ord", "clamp")
 def _ord_clamp(I, a, d):
     return _ord_min(I, [_ord_max(I, [a[0], a[1]], d), a[2]], d)
+
+
+# ---------------------------------------------------------------------------
+# more str API (pattern arguments: &str / char / String)
+
+def _pattern_bytes(p):
+    p = peel(p)
+    if isinstance(p, int) and not isinstance(p, bool):
+        return chr(p).encode("utf-8")
+    return as_sbytes(p).concrete() if as_sbytes(p).is_concrete() else None
+
+
+def _concrete_or_none(s):
+    s = sb.concretise_atoms(s)
+    return s.concrete() if s.is_concrete() else None
+
+
+def _contains(I, hay, pat):
+    hb = _concrete_or_none(hay)
+    if pat is None:
+        raise Inconclusive("symbolic pattern")
+    if hb is not None:
+        return pat in hb
+    # atoms / symbolic parts: a hit inside a concrete run is decisive
+    for seg in hay.segs:
+        if isinstance(seg, bytes) and pat in seg:
+            return True
+    if hay.has_kind(sb.CutSeg) or hay.has_kind(sb.SymByte) or hay.has_kind(sb.BlobSeg):
+        raise Inconclusive("str::contains over symbolic bytes")
+    # text atoms (digits / hex / base64 alphabets): a pattern with a byte outside those alphabets cannot
+    # lie inside or across an atom
+    alphabet = b"0123456789abcdefghijklmnopqrstuvwxyzABCDEFGHIJKLMNOPQRSTUVWXYZ+/="
+    segs = list(hay.segs)
+    possible = False
+    for i, seg in enumerate(segs):
+        if not isinstance(seg, sb.Atom):
+            continue
+        L = segs[i - 1] if i > 0 and isinstance(segs[i - 1], bytes) else b""
+        R = segs[i + 1] if i + 1 < len(segs) and isinstance(segs[i + 1], bytes) else b""
+        more_left = i > 1 or (i == 1 and not isinstance(segs[0], bytes))
+        more_right = i + 2 < len(segs) or (i + 1 < len(segs) and not isinstance(segs[i + 1], bytes))
+        for st in range(len(pat)):
+            for en in range(st + 1, len(pat) + 1):
+                if any(ch not in alphabet for ch in pat[st:en]):
+                    break
+                x, y = pat[:st], pat[en:]
+                okx = L.endswith(x) if len(x) <= len(L) else (more_left and x.endswith(L))
+                oky = R.startswith(y) if len(y) <= len(R) else (more_right and y.startswith(R))
+                if okx and oky:
+                    possible = True
+    if not possible:
+        return False
+    raise Inconclusive("str::contains undecided over text atoms")
+
+
+@T.path("core::str::contains", "str::contains")
+def _str_contains(I, a, d):
+    return _contains(I, as_sbytes(a[0]), _pattern_bytes(a[1]))
+
+
+@T.path("core::str::starts_with", "str::starts_with")
+def _str_starts_with(I, a, d):
+    s, p = sb.concretise_atoms(as_sbytes(a[0])), _pattern_bytes(a[1])
+    if p is None:
+        raise Inconclusive("symbolic pattern")
+    if s.segs and isinstance(s.segs[0], bytes) and len(s.segs[0]) >= len(p):
+        return s.segs[0].startswith(p)
+    if s.is_concrete():
+        return s.concrete().startswith(p)
+    if not s.segs:
+        return p == b""
+    raise Inconclusive("str::starts_with over symbolic text")
+
+
+@T.path("core::str::ends_with", "str::ends_with")
+def _str_ends_with(I, a, d):
+    s, p = sb.concretise_atoms(as_sbytes(a[0])), _pattern_bytes(a[1])
+    if p is None:
+        raise Inconclusive("symbolic pattern")
+    if s.segs and isinstance(s.segs[-1], bytes) and len(s.segs[-1]) >= len(p):
+        return s.segs[-1].endswith(p)
+    if s.is_concrete():
+        return s.concrete().endswith(p)
+    if not s.segs:
+        return p == b""
+    raise Inconclusive("str::ends_with over symbolic text")
+
+
+@T.path("core::str::find", "str::find")
+def _str_find(I, a, d):
+    s, p = _concrete_or_none(as_sbytes(a[0])), _pattern_bytes(a[1])
+    if s is None or p is None:
+        raise Inconclusive("str::find over symbolic text")
+    i = s.find(p)
+    return NONE() if i < 0 else SOME(i)
+
+
+@T.path("core::str::split_once", "str::split_once")
+def _str_split_once(I, a, d):
+    s, p = as_sbytes(a[0]), _pattern_bytes(a[1])
+    if p is None or len(p) != 1:
+        raise Inconclusive("split_once pattern")
+    s2 = decide_symbytes(I, s, [p[0]])
+    parts = split_with_cuts(I, s2, p[0])
+    if len(parts) < 2:
+        return NONE()
+    rest = parts[1]
+    for q in parts[2:]:
+        rest = rest + p + q
+    return SOME(Agg("tuple", None, [BytesRef(parts[0], "str"), BytesRef(rest, "str")]))
+
+
+@T.path("core::str::splitn", "str::splitn")
+def _str_splitn(I, a, d):
+    s, n, p = as_sbytes(a[0]), a[1], _pattern_bytes(a[2])
+    if p is None or len(p) != 1 or not isinstance(n, int):
+        raise Inconclusive("splitn pattern")
+    s2 = decide_symbytes(I, s, [p[0]])
+    parts = split_with_cuts(I, s2, p[0])
+    if n <= 0:
+        return RIter.from_list([])
+    if len(parts) > n:
+        rest = parts[n - 1]
+        for q in parts[n:]:
+            rest = rest + p + q
+        parts = parts[:n - 1] + [rest]
+    return RIter.from_list([BytesRef(x, "str") for x in parts])
+
+
+def _trim(b, left=True, right=True):
+    ws = b" \t\n\r\x0b\x0c"
+    if left:
+        b = b.lstrip(ws)
+    if right:
+        b = b.rstrip(ws)
+    return b
+
+
+def _str_trim_generic(left, right):
+    def f(I, a, d):
+        s = sb.concretise_atoms(as_sbytes(a[0]))
+        segs = list(s.segs)
+        if any(not isinstance(x, (bytes, sb.Atom)) for x in segs):
+            raise Inconclusive("trim over symbolic bytes")
+        if left and segs and isinstance(segs[0], bytes):
+            segs[0] = _trim(segs[0], True, False)
+        if right and segs and isinstance(segs[-1], bytes):
+            segs[-1] = _trim(segs[-1], False, True)
+        return BytesRef(SBytes(segs), "str")
+    return f
+
+
+T.path("core::str::trim", "str::trim")(_str_trim_generic(True, True))
+T.path("core::str::trim_start", "str::trim_start")(_str_trim_generic(True, False))
+T.path("core::str::trim_end", "str::trim_end")(_str_trim_generic(False, True))
+
+
+@T.path("core::str::strip_prefix", "str::strip_prefix")
+def _str_strip_prefix(I, a, d):
+    s, p = sb.concretise_atoms(as_sbytes(a[0])), _pattern_bytes(a[1])
+    if _str_starts_with(I, a, d):
+        return SOME(BytesRef(sb.slice_(s, len(p), s.length(), I.w), "str"))
+    return NONE()
+
+
+@T.path("core::str::lines", "str::lines")
+def _str_lines2(I, a, d):
+    from .fs import lines_of
+    items = lines_of(I, as_sbytes(a[0]))
+    out = []
+    for it in items:
+        if it.vname != "Ok":
+            raise Inconclusive("str::lines over invalid UTF-8")
+        out.append(BytesRef(it.fields[0].sb, "str"))
+    return RIter.from_list(out)
+
+
+@T.path("core::str::bytes", "str::bytes", "core::str::chars", "str::chars", "core::str::char_indices")
+def _str_chars(I, a, d):
+    raise Inconclusive("per-character iteration over strings is not modelled")
+
+
+@T.path("core::str::eq_ignore_ascii_case", "core::str::to_lowercase", "core::str::to_uppercase", "core::str::to_ascii_lowercase")
+def _str_case(I, a, d):
+    raise Inconclusive("case mapping is not modelled")
+
+
+@T.trait("Extend", "extend")
+def _extend(I, a, d):
+    v = peel(a[0])
+    it = to_iter(I, a[1])
+    items = it.to_list(I)
+    if isinstance(v, VecObj):
+        v.items.extend(items)
+        return UNIT
+    if isinstance(v, BufObj):
+        for x in items:
+            v.sb = v.sb + (bytes([x]) if isinstance(x, int) else as_sbytes(x))
+        return UNIT
+    if isinstance(v, HashSetObj):
+        for x in items:
+            v.insert(I, x)
+        return UNIT
+    raise Inconclusive("Extend::extend on %r" % (v,))
+
+
+@T.path("std::vec::Vec::extend", "std::vec::Vec::append")
+def _vec_extend(I, a, d):
+    if d["segs"][-1] == "append":
+        src = peel(a[1])
+        dst = peel(a[0])
+        if isinstance(dst, VecObj) and isinstance(src, VecObj):
+            dst.items.extend(src.items)
+            src.items.clear()
+            return UNIT
+        if isinstance(dst, BufObj) and isinstance(src, BufObj):
+            dst.sb = dst.sb + src.sb
+            src.sb = SBytes()
+            return UNIT
+        raise Inconclusive("Vec::append")
+    return _extend(I, a, d)
